@@ -71,7 +71,7 @@ pub fn bind_outcome(c: &BindCase) -> Outcome {
             let mut live: Vec<Live> = vec![];
             let mut gone: Vec<Endpoint> = vec![];
             let mut conns: Vec<(RawConn, String)> = vec![]; // (connection, endpoint text it was made to)
-            let mut stalled: Vec<(RawConn, String)> = vec![];
+            let mut stalled: Vec<(RawConn, String, usize)> = vec![]; // (connection, endpoint text, handshake bytes sent)
             let mut tagn = 0usize;
             for (opi, op) in c.ops.iter().enumerate() {
                 let before: Vec<Endpoint> = {
@@ -141,7 +141,7 @@ pub fn bind_outcome(c: &BindCase) -> Outcome {
                             classes.push("unbind-with-other-binds".into());
                         }
                         let l = live.remove(k);
-                        if stalled.iter().any(|(_, t)| *t == l.text) {
+                        if stalled.iter().any(|(_, t, _)| *t == l.text) {
                             classes.push("unbind-with-a-handshake-pending".into());
                         }
                         let res = match tokio::time::timeout(realnet::LIMIT, realnet::sock_unbind(&mut s, l.endpoint.clone())).await {
@@ -154,7 +154,7 @@ pub fn bind_outcome(c: &BindCase) -> Outcome {
                                     opi,
                                     l.text,
                                     realnet::LIMIT,
-                                    stalled.iter().filter(|(_, t)| *t == l.text).count()
+                                    stalled.iter().filter(|(_, t, _)| *t == l.text).count()
                                 );
                                 // the socket was abandoned in the middle of unbind: stop here
                                 break;
@@ -168,6 +168,35 @@ pub fn bind_outcome(c: &BindCase) -> Outcome {
                                 if let Some(p) = realnet::ipc_path_of(&l.text) {
                                     if p.exists() {
                                         fail!(f, format!("C18/{}/unbind/ipc-file-left-behind", who), "{}", p.display());
+                                    }
+                                }
+                                // clients that were in the middle of their handshake on this
+                                // endpoint resume now: unbind has stopped accepting on it, so
+                                // none of them may still become a peer - the connection is
+                                // closed
+                                let mut i = 0;
+                                while i < stalled.len() {
+                                    if stalled[i].1 != l.text {
+                                        i += 1;
+                                        continue;
+                                    }
+                                    let (mut rc, _, n) = stalled.remove(i);
+                                    classes.push("handshake-resumed-after-unbind".into());
+                                    let mut hs = crate::hostile::valid_greeting();
+                                    hs.extend_from_slice(&refcodec::encode_ready(kind.a_compatible_peer(), None));
+                                    let _ = rc.write(&hs[n.min(hs.len())..]).await;
+                                    let ended = rc.await_end(std::time::Duration::from_secs(2)).await;
+                                    // (the socket's own greeting and READY may have been sent long
+                                    // before the unbind; only the fate of the connection counts)
+                                    if !ended {
+                                        fail!(
+                                            f,
+                                            format!("C18/{}/unbind/pending-handshake-completes-after-unbind", who),
+                                            "op {}: a client was {} bytes into its handshake on {} when unbind returned; it then sent the rest and the connection is still open 2 s later",
+                                            opi,
+                                            n,
+                                            l.text
+                                        );
                                     }
                                 }
                             }
@@ -267,7 +296,7 @@ pub fn bind_outcome(c: &BindCase) -> Outcome {
                                 }
                                 // let the accept task pick the connection up
                                 tokio::time::sleep(std::time::Duration::from_millis(5)).await;
-                                stalled.push((rc, live[k].text.clone()));
+                                stalled.push((rc, live[k].text.clone(), n));
                             }
                             Err(e) => fail!(f, format!("C18/{}/bound-endpoint-does-not-accept", who), "op {}: connect to {} failed: {}", opi, live[k].text, e),
                         }
